@@ -6,7 +6,7 @@
 // the constructor docs, and the Display strings), not from the constructor bodies.
 // `rd` is an alias of the crate under verification: `use crate as rd;` in the overlay, `use rand_distr as rd;`
 // in the replay crate.
-#![allow(dead_code, clippy::all)]
+#![allow(dead_code, unreachable_patterns, clippy::all)]
 use super::rd;
 use rd::num_traits::Float;
 
@@ -19,7 +19,7 @@ use rd::num_traits::Float;
 
 /// Cauchy::new — ScaleTooSmall: `scale <= 0` or `nan`.
 pub fn cauchy_new_post<F: Float, T>(_median: F, scale: F, r: &Result<T, rd::CauchyError>) -> bool {
-    match r { Err(rd::CauchyError::ScaleTooSmall) => nonpos_or_nan(scale), Ok(_) => !nonpos_or_nan(scale) }
+    match r { Err(rd::CauchyError::ScaleTooSmall) => nonpos_or_nan(scale), Err(_) => false, Ok(_) => !nonpos_or_nan(scale) }
 }
 
 /// Pareto::new — ScaleTooSmall: `scale <= 0` or `nan`; ShapeTooSmall: `shape <= 0` or `nan`.
@@ -27,6 +27,7 @@ pub fn pareto_new_post<F: Float, T>(scale: F, shape: F, r: &Result<T, rd::Pareto
     match r {
         Err(rd::ParetoError::ScaleTooSmall) => nonpos_or_nan(scale),
         Err(rd::ParetoError::ShapeTooSmall) => nonpos_or_nan(shape),
+        Err(_) => false,
         Ok(_) => !nonpos_or_nan(scale) && !nonpos_or_nan(shape),
     }
 }
@@ -36,6 +37,7 @@ pub fn weibull_new_post<F: Float, T>(scale: F, shape: F, r: &Result<T, rd::Weibu
     match r {
         Err(rd::WeibullError::ScaleTooSmall) => nonpos_or_nan(scale),
         Err(rd::WeibullError::ShapeTooSmall) => nonpos_or_nan(shape),
+        Err(_) => false,
         Ok(_) => !nonpos_or_nan(scale) && !nonpos_or_nan(shape),
     }
 }
@@ -47,6 +49,7 @@ pub fn gumbel_new_post<F: Float, T>(location: F, scale: F, r: &Result<T, rd::Gum
     match r {
         Err(rd::GumbelError::LocationNotFinite) => !location.is_finite(),
         Err(rd::GumbelError::ScaleNotPositive) => not_finite_positive(scale),
+        Err(_) => false,
         Ok(_) => location.is_finite() && !not_finite_positive(scale),
     }
 }
@@ -57,6 +60,7 @@ pub fn frechet_new_post<F: Float, T>(location: F, scale: F, shape: F, r: &Result
         Err(rd::FrechetError::LocationNotFinite) => !location.is_finite(),
         Err(rd::FrechetError::ScaleNotPositive) => not_finite_positive(scale),
         Err(rd::FrechetError::ShapeNotPositive) => not_finite_positive(shape),
+        Err(_) => false,
         Ok(_) => location.is_finite() && !not_finite_positive(scale) && !not_finite_positive(shape),
     }
 }
@@ -68,6 +72,7 @@ pub fn triangular_new_post<F: Float, T>(min: F, max: F, mode: F, r: &Result<T, r
     match r {
         Err(rd::TriangularError::RangeTooSmall) => range_bad,
         Err(rd::TriangularError::ModeRange) => mode_bad,
+        Err(_) => false,
         Ok(_) => !range_bad && !mode_bad,
     }
 }
@@ -119,6 +124,7 @@ pub fn lognormal_from_mean_cv_post<F: Float, T>(mean: F, cv: F, r: &Result<T, rd
     match r {
         Err(rd::NormalError::MeanTooSmall) => mean_bad,
         Err(rd::NormalError::BadVariance) => cv_bad || unspecified,
+        Err(_) => false,
         Ok(_) => !mean_bad && !cv_bad,
     }
 }
@@ -126,7 +132,7 @@ pub fn lognormal_from_mean_cv_post<F: Float, T>(mean: F, cv: F, r: &Result<T, rd
 /// Exp::new — LambdaTooSmall: `lambda < 0` or `-0.0` or `nan`.
 pub fn exp_new_post<F: Float, T>(lambda: F, r: &Result<T, rd::ExpError>) -> bool {
     let bad = lambda < F::zero() || (lambda == F::zero() && lambda.is_sign_negative()) || lambda.is_nan();
-    match r { Err(rd::ExpError::LambdaTooSmall) => bad, Ok(_) => !bad }
+    match r { Err(rd::ExpError::LambdaTooSmall) => bad, Err(_) => false, Ok(_) => !bad }
 }
 
 /// Gamma::new — ShapeTooSmall: `shape <= 0` or nan; ScaleTooSmall: `scale <= 0` or nan; ScaleTooLarge: `1/scale == 0`.
@@ -138,6 +144,7 @@ pub fn gamma_new_post<F: Float, T>(shape: F, scale: F, r: &Result<T, rd::GammaEr
         Err(rd::GammaError::ShapeTooSmall) => nonpos_or_nan(shape),
         Err(rd::GammaError::ScaleTooSmall) => nonpos_or_nan(scale),
         Err(rd::GammaError::ScaleTooLarge) => unspecified,
+        Err(_) => false,
         Ok(_) => !nonpos_or_nan(shape) && !nonpos_or_nan(scale),
     }
 }
@@ -146,7 +153,7 @@ pub fn gamma_new_post<F: Float, T>(shape: F, scale: F, r: &Result<T, rd::GammaEr
 
 /// ChiSquared::new — DoFTooSmall: `0.5 * k <= 0` or `nan` (evaluated in F, as documented).
 pub fn chi_squared_new_post<F: Float, T>(k: F, r: &Result<T, rd::ChiSquaredError>) -> bool {
-    match r { Err(rd::ChiSquaredError::DoFTooSmall) => half_nonpos(k), Ok(_) => !half_nonpos(k) }
+    match r { Err(rd::ChiSquaredError::DoFTooSmall) => half_nonpos(k), Err(_) => false, Ok(_) => !half_nonpos(k) }
 }
 
 /// FisherF::new — MTooSmall: `0.5 * m <= 0.0` or nan; NTooSmall: `0.5 * n <= 0.0` or nan.
@@ -154,6 +161,7 @@ pub fn fisher_f_new_post<F: Float, T>(m: F, n: F, r: &Result<T, rd::FisherFError
     match r {
         Err(rd::FisherFError::MTooSmall) => half_nonpos(m),
         Err(rd::FisherFError::NTooSmall) => half_nonpos(n),
+        Err(_) => false,
         Ok(_) => !half_nonpos(m) && !half_nonpos(n),
     }
 }
@@ -163,6 +171,7 @@ pub fn beta_new_post<F: Float, T>(alpha: F, beta: F, r: &Result<T, rd::BetaError
     match r {
         Err(rd::BetaError::AlphaTooSmall) => nonpos_or_nan(alpha),
         Err(rd::BetaError::BetaTooSmall) => nonpos_or_nan(beta),
+        Err(_) => false,
         Ok(_) => !nonpos_or_nan(alpha) && !nonpos_or_nan(beta),
     }
 }
@@ -181,6 +190,7 @@ pub fn pert_with_mode_post<F: Float, T>(min: F, max: F, shape: F, mode: F, r: &R
         Err(rd::PertError::RangeTooSmall) => range_bad || unspecified,
         Err(rd::PertError::ModeRange) => mode_bad,
         Err(rd::PertError::ShapeTooSmall) => shape_bad,
+        Err(_) => false,
         Ok(_) => !range_bad && !mode_bad && !shape_bad,
     }
 }
@@ -195,6 +205,7 @@ pub fn poisson_new_post<F: Float, T>(lambda: F, max_lambda: F, r: &Result<T, rd:
         Err(rd::PoissonError::ShapeTooSmall) => small,
         Err(rd::PoissonError::NonFinite) => nonfinite,
         Err(rd::PoissonError::ShapeTooLarge) => large,
+        Err(_) => false,
         Ok(_) => !small && !nonfinite && !large,
     }
 }
@@ -206,6 +217,7 @@ where rd::StandardNormal: rd::Distribution<F> {
     match r {
         Err(rd::SkewNormalError::ScaleTooSmall) => scale_bad,
         Err(rd::SkewNormalError::BadShape) => !shape.is_finite(),
+        Err(_) => false,
         Ok(d) => !scale_bad && shape.is_finite() && same(d.location(), location) && same(d.scale(), scale) && same(d.shape(), shape),
     }
 }
@@ -215,6 +227,7 @@ pub fn inverse_gaussian_new_post<F: Float, T>(mean: F, shape: F, r: &Result<T, r
     match r {
         Err(rd::InverseGaussianError::MeanNegativeOrNull) => nonpos_or_nan(mean),
         Err(rd::InverseGaussianError::ShapeNegativeOrNull) => nonpos_or_nan(shape),
+        Err(_) => false,
         Ok(_) => !nonpos_or_nan(mean) && !nonpos_or_nan(shape),
     }
 }
@@ -229,6 +242,7 @@ pub fn nig_new_post<F: Float, T>(alpha: F, beta: F, r: &Result<T, rd::NormalInve
         Err(rd::NormalInverseGaussianError::AlphaNegativeOrNull) => a_bad,
         Err(rd::NormalInverseGaussianError::AlphaInfinite) => a_inf,
         Err(rd::NormalInverseGaussianError::AbsoluteBetaNotLessThanAlpha) => b_bad,
+        Err(_) => false,
         Ok(_) => !a_bad && !a_inf && !b_bad,
     }
 }
@@ -236,7 +250,7 @@ pub fn nig_new_post<F: Float, T>(alpha: F, beta: F, r: &Result<T, rd::NormalInve
 /// Zeta::new — STooSmall: `s <= 1` or nan.
 pub fn zeta_new_post<F: Float, T>(s: F, r: &Result<T, rd::ZetaError>) -> bool {
     let bad = !(s > F::one());
-    match r { Err(rd::ZetaError::STooSmall) => bad, Ok(_) => !bad }
+    match r { Err(rd::ZetaError::STooSmall) => bad, Err(_) => false, Ok(_) => !bad }
 }
 
 /// Zipf::new — STooSmall: `s < 0` or nan; NTooSmall: `n < 1` or nan; IllDefined: `n = inf` and `s <= 1`.
@@ -248,6 +262,7 @@ pub fn zipf_new_post<F: Float, T>(n: F, s: F, r: &Result<T, rd::ZipfError>) -> b
         Err(rd::ZipfError::STooSmall) => s_bad,
         Err(rd::ZipfError::NTooSmall) => n_bad,
         Err(rd::ZipfError::IllDefined) => ill,
+        Err(_) => false,
         Ok(_) => !s_bad && !n_bad && !ill,
     }
 }
@@ -255,7 +270,7 @@ pub fn zipf_new_post<F: Float, T>(n: F, s: F, r: &Result<T, rd::ZipfError>) -> b
 /// Geometric::new — InvalidProbability: `p < 0 || p > 1` or nan.
 pub fn geometric_new_post<T>(p: f64, r: &Result<T, rd::GeoError>) -> bool {
     let bad = !(p >= 0.0 && p <= 1.0);
-    match r { Err(rd::GeoError::InvalidProbability) => bad, Ok(_) => !bad }
+    match r { Err(rd::GeoError::InvalidProbability) => bad, Err(_) => false, Ok(_) => !bad }
 }
 
 /// Binomial::new — ProbabilityTooSmall: `p < 0` or nan; ProbabilityTooLarge: `p > 1`.
@@ -265,6 +280,7 @@ pub fn binomial_new_post<T>(_n: u64, p: f64, r: &Result<T, rd::BinomialError>) -
     match r {
         Err(rd::BinomialError::ProbabilityTooSmall) => small,
         Err(rd::BinomialError::ProbabilityTooLarge) => large,
+        Err(_) => false,
         Ok(_) => !small && !large,
     }
 }
@@ -276,6 +292,7 @@ pub fn hypergeometric_new_post<T>(total: u64, feature: u64, sample: u64, r: &Res
         Err(rd::HyperGeoError::PopulationTooLarge) => true,
         Err(rd::HyperGeoError::ProbabilityTooLarge) => feature > total,
         Err(rd::HyperGeoError::SampleSizeTooLarge) => sample > total,
+        Err(_) => false,
         Ok(_) => feature <= total && sample <= total,
     }
 }
